@@ -14,7 +14,7 @@ for kv in sys.argv[3:]:
 plain = build.get("plain")
 prog, exp = gen.make_program(random.Random(seed), feats)
 with Scratch("red") as sc:
-    cnt = [0]
+    cnt = [0]; first = [None]
     def fails(p, e):
         cnt[0] += 1
         d = sc.sub("r%d" % cnt[0])
@@ -23,7 +23,14 @@ with Scratch("red") as sc:
         if which in "NC":
             c = sh([plain.nanoc, "main.nano", "-o", "main.bin"], cwd=d, env=plain.fastcc_env(), cpu=60)
             if which == "C":
-                return c.rc != 0
+                import re
+                m = re.search(r"error: (.{0,30})", c.errtext() + c.text())
+                sig = m.group(1) if m else (c.errtext()[-60:] if c.rc != 0 else None)
+                if c.rc != 0 and "double free" in c.errtext() or "invalid pointer" in c.errtext():
+                    sig = "free"
+                if first[0] is None:
+                    first[0] = sig
+                return c.rc != 0 and sig == first[0]
             if c.rc != 0:
                 return False
             n = sh(["./main.bin"], cwd=d, cpu=10)
